@@ -27,7 +27,10 @@ def _item():
     itp = st.fixed_dictionaries(dict(
         k=st.just("itp"),
         p=st.one_of(bits(27), st.sampled_from(_EDGE), st.integers(0, 26).map(lambda b: 1 << b)),
-        w1=st.one_of(st.just(0), bits(32)), w2=st.one_of(st.just(0), bits(32))))
+        w1=st.one_of(st.just(0), bits(32)), w2=st.one_of(st.just(0), bits(32)),
+        # link-control word (CRC16, sequence number, hub depth, delayed, deferred, CRC5): any value — the
+        # statement says "on each isochronous timestamp packet", whatever its link-layer flags
+        w3=st.one_of(st.just(0), bits(32), st.integers(0, 31).map(lambda b: 1 << b))))
     other = st.fixed_dictionaries(dict(
         k=st.just("other"), t=st.sampled_from(OTHER_TYPES), p=bits(27), w1=bits(32), w2=bits(32),
         n=st.integers(1, 4)))
@@ -77,7 +80,7 @@ class _Driver:
             self.left = 6 if it["k"] == "itp" else it["n"]
         if it["k"] == "itp":
             dw0 = hp.TYPE_ITP | (it["p"] << 5)
-            upd = dict(valid=1, dw0=dw0, dw1=it["w1"], dw2=it["w2"])
+            upd = dict(valid=1, dw0=dw0, dw1=it["w1"], dw2=it["w2"], dw3=it.get("w3", 0))
         elif it["k"] == "other":
             dw0 = it["t"] | (it["p"] << 5)
             upd = dict(valid=1, dw0=dw0, dw1=it["w1"], dw2=it["w2"])
@@ -102,16 +105,23 @@ class ItpSub(Sub):
         dut = TimestampPacketReceiver()
         hs = dut.header_sink
         self.h = CycleHarness(
-            dut, ins=dict(valid=hs.valid, dw0=hs.header.dw0, dw1=hs.header.dw1, dw2=hs.header.dw2),
+            dut, ins=dict(valid=hs.valid, dw0=hs.header.dw0, dw1=hs.header.dw1, dw2=hs.header.dw2, dw3=self._dw3(hs.header)),
             outs=dict(ready=hs.ready, upd=dut.update_received, ctr=dut.bus_interval_counter, delta=dut.delta),
             domain="ss")
         self.widths = (len(dut.bus_interval_counter), len(dut.delta))
+
+    @staticmethod
+    def _dw3(header):
+        from amaranth import Cat
+        return Cat(header.crc16, header.sequence_number, header.dw3_reserved, header.hub_depth,
+                   header.delayed, header.deferred, header.crc5)
 
     def strategy(self):
         return st.fixed_dictionaries(dict(items=long_lists(_item(), min_size=1, max_size=40, average=12)))
 
     def enumerate(self, tier):
-        cases = [dict(items=[dict(k="itp", p=p, w1=0, w2=0)]) for p in _EDGE + [1 << b for b in range(27)]]
+        cases = [dict(items=[dict(k="itp", p=p, w1=0, w2=0, w3=0)]) for p in _EDGE + [1 << b for b in range(27)]]
+        cases += [dict(items=[dict(k="itp", p=0x2AAAAAA, w1=0, w2=0, w3=1 << b)]) for b in range(32)]
         return cases
 
     def run(self, case):
@@ -184,6 +194,8 @@ class ItpSub(Sub):
             labels.add("counter-all-ones")
         if any(d == 0x1FFF for _, _, d in taken):
             labels.add("delta-all-ones")
+        if any(it["k"] == "itp" and (it.get("w3", 0) >> 25) & 1 for it in case["items"]):
+            labels.add("itp-with-delayed-flag")
         return Result(ok=True, nontrivial=hi_c and hi_d, labels=tuple(sorted(labels)))
 
 
